@@ -182,7 +182,10 @@ def gen_sweep_unit(rng):
     surrogates_ok = rng.random() < 0.2
     weights = gen.make_weights(rng)
     atoms = [gen.atom(rng, surrogates_ok, weights) for _ in range(rng.randint(1, 5))]
-    if rng.random() < 0.12:
+    r1 = rng.random()
+    if r1 < 0.1:
+        atoms = gen.class_lookalike(rng, [rng.choice(gen._CLASS_ATOMS)] + atoms[:2])
+    elif r1 < 0.22:
         atoms = gen.fold_lookalike(rng, [rng.choice(gen._KEYWORD_ATOMS)] + atoms[:2])
     elif rng.random() < 0.3:
         atoms = [rng.choice(["<svg>", "<math>", "<table>", "<select>", "<frameset>", "<title>", "<script>", "<textarea>", "<pre>",
